@@ -47,6 +47,8 @@ pub enum Ev {
     Reset,
     SetLen(Option<u64>),
     Finish,
+    /// finish_and_clear(): finished like finish(), nothing is left on the terminal
+    FinishAndClear,
     /// abandon(): finished with the position left where it is
     Abandon,
     /// k calls of inc(1) at one instant (one update of +k; the bar's own throttle drops most of the samples)
@@ -228,6 +230,10 @@ fn apply(pb: &ProgressBar, ev: &Ev, tr: &mut Track, pos: &mut u64) {
             pb.finish();
             tr.forward_only = false;
         }
+        Ev::FinishAndClear => {
+            pb.finish_and_clear();
+            tr.forward_only = false;
+        }
         Ev::Abandon => {
             pb.abandon();
             tr.abandoned = true;
@@ -274,7 +280,7 @@ fn run_laws(c: &LawCase) -> CaseResult {
                 gaps.push(*gap);
             }
         }
-        if matches!(ev, Ev::Finish | Ev::Abandon) {
+        if matches!(ev, Ev::Finish | Ev::FinishAndClear | Ev::Abandon) {
             finished = true;
         }
         if matches!(ev, Ev::Reset) {
@@ -341,6 +347,7 @@ fn ev_strategy() -> BoxedStrategy<Ev> {
         1 => Just(Ev::Reset),
         1 => proptest::option::weighted(0.8, prop_oneof![0u64..10_000, any::<u64>()]).prop_map(Ev::SetLen),
         1 => Just(Ev::Finish),
+        1 => Just(Ev::FinishAndClear),
         1 => Just(Ev::Abandon),
         1 => (11u8..60).prop_map(Ev::Burst),
         1 => prop_oneof![0u64..1000, any::<u64>().prop_map(|x| x >> 11)].prop_map(Ev::UpdateSetPos),
